@@ -173,6 +173,17 @@ Definition requests_accounted (pre post : proxy) (m : msg response) : bool :=
       | None => opt_eqb creq_eqb (open_req post (fst cc) (fst kr)) (Some (snd kr))
       end) (tc_reqs (snd cc))) (p_children pre).
 
+(** no_spurious_response: after an accepted response no child has a pending response or a used key that it
+    did not have before and did not ask for (each response goes to THAT child only). *)
+Definition nothing_foreign (pre post : proxy) : bool :=
+  forallb (fun cc =>
+    let prech := match aget (fst cc) (p_children pre) with Some ch => ch | None => empty_child end in
+    forallb (fun ka => opt_eqb cresp_eqb (aget (fst ka) (tc_resps prech)) (Some (snd ka))
+                       || is_some (aget (fst ka) (tc_reqs prech))) (tc_resps (snd cc))
+    && forallb (fun ku => opt_eqb ustate_eqb (aget (fst ku) (tc_used prech)) (Some (snd ku))
+                          || is_some (aget (fst ku) (tc_reqs prech))) (tc_used (snd cc)))
+    (p_children post).
+
 Definition ok_proxy_case (pre : proxy) (steps : list pstep) (post : proxy) (same_json : bool) : bool :=
   ok_psteps pre steps
   (* refused_no_change *)
@@ -188,7 +199,7 @@ Definition ok_proxy_case (pre : proxy) (steps : list pstep) (post : proxy) (same
          | Some m =>
              is_ok (p_open post) && (pnum post =? o_num (r_objs (m_content m)))
              && (pnum pre <? pnum post)                                   (* ta_numbers_increase *)
-             && responses_stored post m && requests_accounted pre post m
+             && responses_stored post m && requests_accounted pre post m && nothing_foreign pre post
          | None =>
              match ps_cmd st, ps_err st with
              | PMake n, None => opt_eqb N.eqb (p_open post) (Some n)
@@ -205,7 +216,18 @@ Definition ok_proxy_case (pre : proxy) (steps : list pstep) (post : proxy) (same
 
 (** signer_processes_iff_signed_by_proxy (signature part), ta_numbers_increase *)
 Definition honest (cur : signer) (st : sstep) : bool := (m_by (ss_msg st) =? s_proxy cur) && m_intact (ss_msg st).
+(** What the signer answers is, child by child and key by key, the answer to that child's own requests
+    (process_reqs_answers / process_children_answers): nothing of another child, nothing missing. *)
+Definition expected_answers (l : request) : list (N * list (N * cresp)) :=
+  map (fun e => (fst e, map (fun kr => (fst kr, answer_of (snd kr))) (snd e))) l.
+Definition answers_ok (st : sstep) : bool :=
+  match ss_err st, ss_resp st with
+  | None, Some r => amap_eqb (amap_eqb cresp_eqb) (r_children (m_content r)) (expected_answers (m_content (ss_msg st)))
+  | _, _ => true
+  end.
+
 Definition ok_sstep (cur : signer) (st : sstep) : bool :=
+  answers_ok st &&
   (* processed only if validly signed by the associated proxy *)
   (negb (is_ok (ss_err st)) || honest cur st)
   (* a request that does not carry the proxy's intact signature is refused as such *)
